@@ -129,6 +129,8 @@ inline Shape declaredShape(const OSnap& o) {
     } else {
         if (pl) sh.pts = pl->strs;
         if (al) sh.chans = al->strs;
+        for (int k = 2; k < 20; ++k) { std::string nm = "LABELS" + std::to_string(k); bool any = false;   // C3D's convention for more than 255 names (LABELS2, LABELS3, …)
+            if (gp && gp->find(nm.c_str())) { for (auto& x : gp->find(nm.c_str())->strs) sh.pts.push_back(x); any = true; } if (ga && ga->find(nm.c_str())) { for (auto& x : ga->find(nm.c_str())->strs) sh.chans.push_back(x); any = true; } if (!any) break; }
         sh.nsub = sh.chans.empty() ? 0 : (o.h.subPerFrame ? o.h.subPerFrame : 1);
     }
     return sh;
